@@ -119,6 +119,31 @@ PAIRS = [
 CONTEXTS = [
     # expression in expression
     ("call-argument", "E", "E", "f(0, ", ")", ["visit_call_expr", "visit_expr_or_spread"], ""),
+    # heads of loops / catch clauses / assignment patterns, and further expression positions (added after a panic was found in a for-of head)
+    ("for-of-head-array-default", "E", "S", "for (const [d%d = ", "] of it) { g(); }", ["visit_for_of_stmt", "visit_for_head", "visit_var_decl", "visit_var_declarator", "visit_pat", "visit_array_pat", "visit_assign_pat"], ""),
+    ("for-of-head-object-default", "E", "S", "for (const { d%d = ", " } of it) { g(); }", ["visit_for_of_stmt", "visit_for_head", "visit_var_decl", "visit_var_declarator", "visit_pat", "visit_object_pat", "visit_object_pat_prop", "visit_assign_pat_prop"], ""),
+    ("for-in-head-array-default", "E", "S", "for (const [d%d = ", "] in o) { if (h()) { g(); } }", ["visit_for_in_stmt", "visit_for_head", "visit_var_decl", "visit_var_declarator", "visit_pat", "visit_array_pat", "visit_assign_pat"], ""),
+    ("for-of-head-member-computed", "E", "S", "for (o[", "] of it) { g(); }", ["visit_for_of_stmt", "visit_for_head", "visit_pat", "visit_expr", "visit_member_expr", "visit_member_prop", "visit_computed_prop_name"], ""),
+    ("for-await-of-head-default", "E", "E", "(async () => { for await (const [d%d = ", "] of it) { g(); } })", ["visit_paren_expr", "visit_arrow_expr", "visit_block_stmt_or_expr", "visit_block_stmt", "visit_stmt", "visit_for_of_stmt", "visit_for_head", "visit_var_decl", "visit_var_declarator", "visit_pat", "visit_array_pat", "visit_assign_pat"], ""),
+    ("catch-param-default", "E", "S", "try { g(); } catch ({ d%d = ", " }) { g(); }", ["visit_try_stmt", "visit_catch_clause", "visit_pat", "visit_object_pat", "visit_object_pat_prop", "visit_assign_pat_prop"], ""),
+    ("assignment-pattern-array-default", "E", "E", "([t%d = ", "] = arr)", ["visit_paren_expr", "visit_assign_expr", "visit_assign_target", "visit_assign_target_pat", "visit_array_pat", "visit_pat", "visit_assign_pat"], ""),
+    ("assignment-pattern-object-default", "E", "E", "({ t%d = ", " } = obj)", ["visit_paren_expr", "visit_assign_expr", "visit_assign_target", "visit_assign_target_pat", "visit_object_pat", "visit_object_pat_prop", "visit_assign_pat_prop"], ""),
+    ("assignment-pattern-computed-key", "E", "E", "({ [", "]: t%d } = obj)", ["visit_paren_expr", "visit_assign_expr", "visit_assign_target", "visit_assign_target_pat", "visit_object_pat", "visit_object_pat_prop", "visit_key_value_pat_prop", "visit_prop_name", "visit_computed_prop_name"], ""),
+    ("var-destructuring-default", "E", "S", "const [v%d = ", "] = arr;", ["visit_var_decl", "visit_var_declarator", "visit_pat", "visit_array_pat", "visit_assign_pat"], ""),
+    ("class-method-default-parameter", "E", "E", "(class { m(p = ", ") {} })", ["visit_paren_expr", "visit_class_expr", "visit_class", "visit_class_member", "visit_class_method", "visit_function", "visit_param", "visit_pat", "visit_assign_pat"], ""),
+    ("constructor-default-parameter", "E", "E", "(class { constructor(p = ", ") {} })", ["visit_paren_expr", "visit_class_expr", "visit_class", "visit_class_member", "visit_constructor", "visit_param_or_ts_param_prop", "visit_param", "visit_pat", "visit_assign_pat"], ""),
+    ("setter-default-parameter", "E", "E", "({ set s(v = ", ") {} })", ["visit_paren_expr", "visit_object_lit", "visit_prop", "visit_setter_prop", "visit_pat", "visit_assign_pat"], ""),
+    ("object-method-default-parameter", "E", "E", "({ m(p = ", ") {} })", ["visit_paren_expr", "visit_object_lit", "visit_prop", "visit_method_prop", "visit_function", "visit_param", "visit_pat", "visit_assign_pat"], ""),
+    ("super-call-argument", "E", "E", "(class extends B { constructor() { super(", "); } })", ["visit_paren_expr", "visit_class_expr", "visit_class", "visit_class_member", "visit_constructor", "visit_block_stmt", "visit_stmt", "visit_expr_stmt", "visit_call_expr", "visit_expr_or_spread"], ""),
+    ("dynamic-import-argument", "E", "E", "import(", ")", ["visit_call_expr", "visit_expr_or_spread"], ""),
+    ("tagged-template-tag", "E", "E", "", "`x`", ["visit_tagged_tpl"], ""),
+    ("optional-member-computed", "E", "E", "o?.[", "]", ["visit_opt_chain_expr", "visit_opt_chain_base", "visit_member_expr", "visit_member_prop", "visit_computed_prop_name"], ""),
+    ("in-right", "E", "E", "('k' in ", ")", ["visit_paren_expr", "visit_bin_expr"], ""),
+    ("delete-member-object", "E", "E", "delete ", ".m", ["visit_unary_expr", "visit_member_expr"], ""),
+    ("yield-delegate", "E", "E", "(function* () { yield* ", "; })", ["visit_paren_expr", "visit_fn_expr", "visit_function", "visit_block_stmt", "visit_stmt", "visit_expr_stmt", "visit_yield_expr"], ""),
+    ("ts-enum-initialiser", "E", "S", "enum EN%d { A = ", " }", ["visit_decl", "visit_ts_enum_decl", "visit_ts_enum_member"], "ts"),
+    ("class-decorator-argument", "E", "S", "@dec(", ") class DC%d {}", ["visit_decl", "visit_class_decl", "visit_class", "visit_decorator", "visit_call_expr", "visit_expr_or_spread"], "ts"),
+    ("for-init-let", "E", "S", "for (let i%d = ", "; h(); ) { g(); }", ["visit_for_stmt", "visit_var_decl_or_expr", "visit_var_decl", "visit_var_declarator"], ""),
     ("call-argument-after-non-ascii", "E", "E", 'f("日本é", ', ")", ["visit_call_expr", "visit_expr_or_spread"], ""),
     ("new-argument", "E", "E", "new F(", ")", ["visit_new_expr", "visit_expr_or_spread"], ""),
     ("optional-call-argument", "E", "E", "f?.(", ")", ["visit_opt_chain_expr", "visit_opt_call", "visit_expr_or_spread"], ""),
@@ -246,6 +271,9 @@ EXPECTED_INTERACTIONS = [
     ("jsx-key", "array-element", None, "the inner context is a JSX element without key inside an array literal"),
     ("jsx-key", "array-spread", None, "same"),
     ("no-cond-assign", None, "assignment-right", "the inner context is an assignment, placed in a test position"),
+    ("no-cond-assign", None, "assignment-pattern-array-default", "same"),
+    ("no-cond-assign", None, "assignment-pattern-object-default", "same"),
+    ("no-cond-assign", None, "assignment-pattern-computed-key", "same"),
     ("no-unused-labels", None, None, "label contexts"),
 ]
 
@@ -363,6 +391,12 @@ def non_recursing_by_rule(table):
             if r["rule"] == a and r["cls"] == "none":
                 for rule in rules:
                     d[rule].setdefault(r["method"], a + "." + r["method"])
+    # overrides of the analyses that recurse into SOME children only (class "unknown" of the table): second choice
+    for a, rules in table["analysis_consumers"].items():
+        for r in table["visit_table"]:
+            if r["rule"] == a and r["cls"] == "unknown":
+                for rule in rules:
+                    d[rule].setdefault("?" + r["method"], a + "." + r["method"])
     return d
 
 
@@ -370,11 +404,15 @@ def attribute(rule, chain, single_status, nonrec):
     """class suffix for a hidden report: the override of the generated table that sits on the spine of the first
     context of the chain which hides the construct on its own; else the context kind."""
     nr = nonrec.get(rule, {})
-    culprits = [k for k in chain if single_status.get(k) == "hidden"] or [k for k in chain if set(CTX[k][5]) & set(nr)]
+    culprits = [k for k in chain if single_status.get(k) == "hidden"] or [k for k in chain if set(CTX[k][5]) & set(nr)] or [k for k in chain if set("?" + m for m in CTX[k][5]) & set(nr)]
     for k in culprits:
         for m in CTX[k][5]:
             if m in nr:
                 return nr[m], k
+    for k in culprits:
+        for m in reversed(CTX[k][5]):       # innermost partially recursing override first
+            if "?" + m in nr:
+                return nr["?" + m], k
     if culprits:
         return "under-" + culprits[0], culprits[0]
     return "under-" + chain[-1], chain[-1]
@@ -799,7 +837,7 @@ def c08(ctx):
                 ("no-await-in-sync-fn", "function io() { ", " }", "await x", "x"),
                 ("no-this-before-super", "class A extends B { constructor() { ", " super(); } }", "this.x", "x"),
                 ("no-this-before-super", "class A extends B { constructor() { ", " super(); } }", "super.m()", "x")]
-    FN_WORDS = ("=>", "function", "class", "get ", "set ", "m()", "static", "<A", "export")
+    FN_WORDS = ("=>", "function", "class", "get ", "set ", "m(", "s(v", "constructor(", "static", "<A", "export", "@dec")
     NONFN = [k for k, c in CTX.items() if not any(w in c[3] + c[4] for w in FN_WORDS) and "top" not in c[6].split() and "tsx" not in c[6].split()]
     nf_e = [k for k in NONFN if CTX[k][1] == "E"]
     for (rule, pre, suf, ex, twin) in INSIDE_E:
@@ -1005,6 +1043,69 @@ def c08(ctx):
     ctx.correspondence("function kinds: %d function-like wrappers (declarations, expressions, arrows, class/object/private/static/computed methods, accessors, constructors, "
                        "field arrows, export default; async and generator variants) give the verdict of the plain function expression, as boundary and as container" % len(FK),
                        n_g, n_g_ok, [], "non-trivial := confirmed prediction; positions normalised relative to outer text / wrapper / inner statement")
+    # ---------------------------------------------------------------- (h) function forms: the offending FUNCTION in every form
+    FORMS = [("fn-decl", "%sfunction%s w(%s) { %s }"), ("fn-expr", "x = %sfunction%s (%s) { %s };"), ("arrow", "x = %s(%s) => { %s };"),
+             ("class-method", "class K { %s%sm(%s) { %s } }"), ("static-method", "class K { static %s%sm(%s) { %s } }"), ("private-method", "class K { %s%s#m(%s) { %s } }"),
+             ("class-expr-method", "x = class { %s%sm(%s) { %s } };"), ("object-method", "x = { %s%sm(%s) { %s } };"), ("object-computed-method", "x = { %s%s[k](%s) { %s } };"),
+             ("object-fn-prop", "x = { m: %sfunction%s (%s) { %s } };"), ("export-default-fn", "export default %sfunction%s (%s) { %s }"),
+             ("class-field-arrow", "class K { f = %s(%s) => { %s }; }"), ("export-fn", "export %sfunction%s w(%s) { %s }"), ("iife", "(%sfunction%s (%s) { %s })();"),
+             ("constructor", "class K { constructor(%s) { %s } }"), ("object-setter", "x = { set s(%s) { %s } };"), ("class-setter", "class K { set s(%s) { %s } }"),
+             ("object-getter", "x = { get g() { %s } };")]
+    # (rule, async prefix, generator star, parameters, body)
+    FORMT = [("require-await", "async ", "", "", "g();"), ("require-yield", "", "*", "", "g();"), ("no-dupe-args", "", "", "a, a", "g();"),
+             ("default-param-last", "", "", "a = 1, b", "g();"), ("no-empty", "", "", "", "if (a) {}"), ("no-inner-declarations", "", "", "", "if (a) { var v; }"),
+             ("no-async-promise-executor", "", "", "", "new Promise(async () => {});"), ("no-unreachable", "", "", "", "return; g();"),
+             ("no-self-assign", "", "", "a", "a = a;"), ("no-func-assign", "", "", "", "function q() {} q = 1;"), ("no-ex-assign", "", "", "", "try {} catch (e) { e = 1; }"),
+             ("no-const-assign", "", "", "", "const c = 1; c = 2;"), ("no-cond-assign", "", "", "a", "if (a = 1) {}"), ("no-debugger", "", "", "", "debugger;"),
+             ("no-fallthrough", "", "", "a", "switch (a) { case 1: g(); case 2: break; }"), ("no-unsafe-finally", "", "", "", "try {} finally { return 1; }"),
+             ("no-redeclare", "", "", "", "var r = 1; var r = 2;"), ("no-shadow-restricted-names", "", "", "undefined", "g();"), ("no-var", "", "", "", "var z = 1;"),
+             ("prefer-const", "", "", "", "let pc = 1; g(pc);"), ("no-delete-var", "", "", "a", "delete a;"), ("no-unused-labels", "", "", "", "lbl: for (;;) {}")]
+    hcases, hmeta = [], []
+    for (rule, a, g, params, body) in FORMT:
+        for (name, tpl) in FORMS:
+            if name in ("constructor", "object-setter", "class-setter", "object-getter"):
+                if a or g:
+                    continue
+                if name == "object-getter":
+                    if params:
+                        continue
+                    src = tpl % body
+                else:
+                    if name != "constructor" and (not params or "," in params):
+                        prm = "v" if not params else None
+                    else:
+                        prm = params
+                    if prm is None:
+                        continue
+                    src = tpl % (prm, body)
+            elif "=>" in tpl:
+                if g:
+                    continue
+                src = tpl % (a, params, body)
+            else:
+                src = tpl % (a, g, params, body)
+            hcases.append({"src": src, "media": "ts", "rules": [rule]})
+            hmeta.append((rule, name, src))
+    hres = run_lint(hcases)
+    hbase = {}
+    for (rule, name, src), r0 in zip(hmeta, hres):
+        if name == "fn-expr":
+            d = rule_diags(r0, rule)
+            hbase[rule] = None if d is None else len(d)
+    n_h = n_h_ok = 0
+    for (rule, name, src), r0 in zip(hmeta, hres):
+        d = rule_diags(r0, rule)
+        if d is None or hbase.get(rule) is None:
+            continue
+        n_h += 1
+        if len(d) == hbase[rule]:
+            n_h_ok += 1
+        else:
+            ctx.violation("C08.%s:%s:function-form:%s" % ("hidden" if len(d) < hbase[rule] else "created", rule, name),
+                          "%d diagnostic(s) for the %s form, %d for the function expression form: %s" % (len(d), name, hbase[rule], src),
+                          {"program": src, "rule": rule, "got": d, "expected_count": hbase[rule]})
+    ctx.correspondence("function forms: an offending parameter list / body gets the same number of diagnostics in each of %d function-like forms" % len(FORMS),
+                       n_h, n_h_ok, [], "non-trivial := confirmed prediction (count equal to the function expression form)")
     # ---------------------------------------------------------------- (f) siblings: state carried from one construct to the next
     scases, smeta = [], []
     def _wrapS(x, i):
